@@ -63,11 +63,15 @@ type scCase struct {
 	PeerTalks        bool          // the peer of a closed endpoint keeps sending
 	Dg               [2]bool       // Config.EnableDatagrams of client, server (SendDatagram is gated on the PEER's flag, ReceiveDatagram on the own one)
 	Flood            [2]bool       // the side calls SendDatagram 60 times right before the cause: the 32-slot send queue is full, a caller is parked in it
+	// a spec-driven client whose transport-parameter list is derived from the parrot's: "adv" advertises max_idle_timeout
+	// SpecTc, "omit" leaves the parameter out, "suppress" lists it but keeps it off the wire (SuppressTransportParameters)
+	SpecIdle string
+	SpecTc   time.Duration
 }
 
 func (c scCase) String() string {
-	return fmt.Sprintf("cause=%s timing=%s blocked(c)=%v blocked(s)=%v accept=%d dropclose=%d rtt=%v idle(c/s)=%v/%v ka(c/s)=%v/%v client=%s code=%d at=%v peertalks=%v datagrams(c/s)=%v/%v sendflood(c/s)=%v/%v seed=%d",
-		c.Cause, c.Timing, c.Blocked[0], c.Blocked[1], c.Accept, c.DropClose, c.RTT, c.CliIdle, c.SrvIdle, c.CliKA, c.SrvKA, c.Client, c.Code, c.At, c.PeerTalks, c.Dg[0], c.Dg[1], c.Flood[0], c.Flood[1], c.Seed)
+	return fmt.Sprintf("cause=%s timing=%s blocked(c)=%v blocked(s)=%v accept=%d dropclose=%d rtt=%v idle(c/s)=%v/%v ka(c/s)=%v/%v client=%s code=%d at=%v peertalks=%v datagrams(c/s)=%v/%v sendflood(c/s)=%v/%v specidle=%s/%v seed=%d",
+		c.Cause, c.Timing, c.Blocked[0], c.Blocked[1], c.Accept, c.DropClose, c.RTT, c.CliIdle, c.SrvIdle, c.CliKA, c.SrvKA, c.Client, c.Code, c.At, c.PeerTalks, c.Dg[0], c.Dg[1], c.Flood[0], c.Flood[1], c.SpecIdle, c.SpecTc, c.Seed)
 }
 
 func genSimCloseCase(r *u.Rng) scCase {
@@ -173,6 +177,10 @@ func genSimCloseCase(r *u.Rng) scCase {
 		c.Dg = [2]bool{true, false} // the server only sends datagrams
 	}
 	c.Flood = [2]bool{r.Chance(1, 2), r.Chance(1, 2)}
+	if c.Client != "plain" && c.Client != "unil" && r.Chance(1, 3) {
+		c.SpecIdle = []string{"adv", "omit", "suppress"}[r.Intn(3)]
+		c.SpecTc = time.Duration(r.Range(2, 25)) * time.Second
+	}
 	return scNormalize(c)
 }
 
@@ -339,6 +347,12 @@ func runOneSimClose(c scCase) (fails []monFail, info string, term string) {
 			if err != nil {
 				fail("simclose/spec", err.Error())
 				return
+			}
+			if c.SpecIdle != "" {
+				if !scDeriveIdleSpec(sp, c.SpecIdle, c.SpecTc) {
+					fail("simclose/spec", "the parrot's ClientHello has no QUIC transport parameters extension with max_idle_timeout")
+					return
+				}
 			}
 			o.Spec = sp
 		}
@@ -855,6 +869,11 @@ func runOneSimClose(c scCase) (fails []monFail, info string, term string) {
 						// computes its keep-alive interval from 5 s, the other side times out before
 						key = "simclose/ka-alive/closed/remote-idle-below-5s"
 					}
+					if c.SpecIdle == "adv" && c.SpecTc < c.CliIdle {
+						// the spec tells the peer a shorter max_idle_timeout than the client enforces (max(Config, spec)); the
+						// keep-alive interval is computed from the enforced value and the peer's, not from what the peer was told
+						key = "simclose/ka-alive/closed/spec-advertises-less-than-enforced"
+					}
 					if c.Cause == "listener-close" {
 						key = "simclose/listener-close/conn-closed"
 					}
@@ -1167,8 +1186,19 @@ func runOneSimClose(c scCase) (fails []monFail, info string, term string) {
 					}
 				}
 				T := closeAt[i]
-				if T < lastIn+negot[i] {
-					fail("simclose/idle-early", fmt.Sprintf("%s timed out %v after the last datagram it received, negotiated idle timeout %v", sd.name, T-lastIn, negot[i]))
+				// the negotiated period, from the bytes on the wire: the minimum of the non-zero max_idle_timeout values
+				// as each side RECEIVED them from the other (RFC 9000 10.1); none advertised: no idle timeout at all
+				wire := time.Duration(0)
+				for _, a := range []int64{snaps[i].PeerAdvertisedIdle, snaps[1-i].PeerAdvertisedIdle} {
+					if a > 0 && (wire == 0 || time.Duration(a) < wire) {
+						wire = time.Duration(a)
+					}
+				}
+				if wire == 0 {
+					fail("simclose/idle-none-advertised", fmt.Sprintf("%s timed out although neither side advertised max_idle_timeout", sd.name))
+				} else if T < lastIn+wire {
+					fail("simclose/idle-early", fmt.Sprintf("%s timed out %v after the last datagram it received, negotiated idle timeout %v (on the wire: it was told %v, it told the peer %v)", sd.name, T-lastIn, wire,
+						time.Duration(snaps[i].PeerAdvertisedIdle), time.Duration(snaps[1-i].PeerAdvertisedIdle)))
 				}
 				start := lastIn
 				if f := snaps[i].FirstAckElicitingAft; f != 0 {
@@ -1225,6 +1255,38 @@ func runOneSimClose(c scCase) (fails []monFail, info string, term string) {
 	return fails, info, term
 }
 
+// scDeriveIdleSpec rewrites the max_idle_timeout entry of the spec's transport-parameter list.
+func scDeriveIdleSpec(sp *quic.QUICSpec, mode string, tc time.Duration) bool {
+	if sp.ClientHelloSpec == nil {
+		return false
+	}
+	for _, ext := range sp.ClientHelloSpec.Extensions {
+		qtp, ok := ext.(*tls.QUICTransportParametersExtension)
+		if !ok {
+			continue
+		}
+		var out tls.TransportParameters
+		found := false
+		for _, p := range qtp.TransportParameters {
+			if _, is := p.(tls.MaxIdleTimeout); is {
+				found = true
+				if mode == "omit" {
+					continue
+				}
+				out = append(out, tls.MaxIdleTimeout(uint64(tc/time.Millisecond)))
+				continue
+			}
+			out = append(out, p)
+		}
+		qtp.TransportParameters = out
+		if mode == "suppress" {
+			sp.SuppressTransportParameters = append(sp.SuppressTransportParameters, 0x01)
+		}
+		return found
+	}
+	return false
+}
+
 func errClassName(k int, err error) string {
 	if errors.Is(err, quic.ErrTransportClosed) {
 		return "transport-closed"
@@ -1246,6 +1308,12 @@ func runSimClose(w *bufio.Writer, seed uint64, n int, args []string) {
 		c := genSimCloseCase(r)
 		if i < len(scCauses) { // every cause at least once in every run
 			c.Cause = scCauses[i]
+			c = fixupCase(c)
+		} else if j := i - len(scCauses); j < len(scSpecIdleTable) {
+			// spec-driven clients x how max_idle_timeout appears in their list x server value shorter / longer: silence
+			t := scSpecIdleTable[j]
+			c.Cause, c.Client, c.SpecIdle, c.SpecTc, c.CliIdle, c.SrvIdle = "silence", "Chrome_115_IPv4", t.mode, t.tc, t.conf, t.srv
+			c.RTT = 10 * time.Millisecond
 			c = fixupCase(c)
 		}
 		if only >= 0 && i != only {
@@ -1288,6 +1356,19 @@ func runSimClose(w *bufio.Writer, seed uint64, n int, args []string) {
 	for _, k := range keys {
 		fmt.Fprintf(w, "DIST\t%s\t%d\n", k, dist[k])
 	}
+}
+
+var scSpecIdleTable = []struct {
+	mode          string
+	tc, conf, srv time.Duration
+}{
+	{"adv", 8 * time.Second, 3 * time.Second, 20 * time.Second},
+	{"adv", 8 * time.Second, 12 * time.Second, 6 * time.Second},
+	{"omit", 0, 7 * time.Second, 20 * time.Second},
+	{"omit", 0, 25 * time.Second, 6 * time.Second},
+	{"suppress", 4 * time.Second, 9 * time.Second, 22 * time.Second},
+	{"suppress", 15 * time.Second, 6 * time.Second, 25 * time.Second},
+	{"suppress", 15 * time.Second, 20 * time.Second, 7 * time.Second},
 }
 
 // fixupCase re-applies the cause-dependent constraints after the cause was overridden.
